@@ -530,6 +530,292 @@ Qed.
 End FoldTyped.
 
 (* ================================================================================================
+   the in-place states of the field objects (Model/FoldStmt.v): a reference evaluates the object
+   of the field it names in the state the folder left it; [exec_tree] = relink (fold e) is the
+   tree the plan executes
+   ================================================================================================ *)
+Section InPlace.
+Variable fo : fops.
+Variable re_match : bytes -> bytes -> res bool.
+Variable fmt_v : F fo -> string.
+Variable vk : bool.
+
+Notation TG := (TG fo vk).
+Notation N := (N fo vk).
+Notation nk := (nk fo vk).
+Notation kinds := (kinds vk).
+Notation wtt := (wtt fo).
+Notation op_check_t := (op_check_t fo).
+Notation optimize := (Fold.optimize fo re_match fmt_v).
+Notation opt_args := (Fold.opt_args fo re_match fmt_v).
+Notation try_exec := (Fold.try_exec fo re_match fmt_v).
+Notation call_fold := (Fold.call_fold fo re_match fmt_v).
+Notation exec_operand := (FoldStmt.exec_operand fo re_match fmt_v).
+Notation after_pass := (FoldStmt.after_pass fo re_match fmt_v).
+Notation in_place := (FoldStmt.in_place fo re_match fmt_v).
+Notation relink := (FoldStmt.relink fo re_match fmt_v).
+Notation exec_tree := (FoldStmt.exec_tree fo re_match fmt_v).
+
+Lemma exec_operand_TG : forall c, TG c (exec_operand c).
+Proof.
+  intros c. destruct c; cbn [FoldStmt.exec_operand]; try apply TG_refl.
+  - exact (proj1 (try_exec_TG fo re_match fmt_v vk (EBin pos o c1 c2) eq_refl)).
+  - exact (proj1 (call_fold_TG fo re_match fmt_v vk pos c args)).
+Qed.
+
+Lemma args_optimize_TG : forall args, Forall2 TG args (map optimize args).
+Proof.
+  induction args as [|a args IH]; cbn [map]; constructor; [|exact IH].
+  exact (proj1 (optimize_TG fo re_match fmt_v vk a)).
+Qed.
+
+Lemma after_pass_TG : forall e, TG e (after_pass e).
+Proof.
+  intros e. destruct e; cbn [FoldStmt.after_pass]; try apply TG_refl.
+  - eapply TG_trans.
+    + apply TG_bin; [exact (proj2 (optimize_TG fo re_match fmt_v vk e1)) | exact (proj2 (optimize_TG fo re_match fmt_v vk e2))].
+    + eapply TG_trans; [apply reorder_TG|].
+      destruct (reorder (EBin pos o (opt_args e1) (opt_args e2))); try apply TG_refl.
+      apply TG_bin; apply exec_operand_TG.
+  - apply TG_call. apply args_optimize_TG.
+Qed.
+
+Lemma in_place_TG : forall e, TG e (in_place e).
+Proof.
+  intros e. unfold FoldStmt.in_place.
+  pose proof (after_pass_TG e) as T1.
+  destruct (FoldStmt.was_folded fo re_match fmt_v e); [exact T1|].
+  destruct (after_pass e) as [p o l' r'| | | |p n args| | | | | | |]; try exact T1.
+  - assert (T2 : TG e (after_pass (EBin p o l' r'))) by (eapply TG_trans; [exact T1 | apply after_pass_TG]).
+    destruct (negb (op_eqb o OAnd || op_eqb o OOr)); [exact T2|].
+    destruct (FoldStmt.bool_lit l'), (FoldStmt.bool_lit r'); try exact T1; try exact T2.
+    + destruct (Bool.eqb (op_eqb o OAnd) b); [|exact T1].
+      eapply TG_trans; [exact T1|]. apply TG_bin; [apply TG_refl | apply after_pass_TG].
+    + destruct (Bool.eqb (op_eqb o OAnd) b); [|exact T1].
+      eapply TG_trans; [exact T1|]. apply TG_bin; [apply after_pass_TG | apply TG_refl].
+  - eapply TG_trans; [exact T1 | apply after_pass_TG].
+Qed.
+
+(* in_place never replaces the root object *)
+Lemma lkind_after_pass : forall e, lkind (after_pass e) = lkind e.
+Proof.
+  intros e. destruct e; try reflexivity. cbn [FoldStmt.after_pass].
+  rewrite reorder_eq. destruct (site_of _ _ _) as [[[? ?] ?]|]; reflexivity.
+Qed.
+
+Lemma lkind_in_place : forall e, lkind (in_place e) = lkind e.
+Proof.
+  intros e. unfold FoldStmt.in_place.
+  destruct (FoldStmt.was_folded fo re_match fmt_v e); [apply lkind_after_pass|].
+  pose proof (lkind_after_pass e) as H1.
+  destruct (after_pass e) as [p o l' r'| | | |p n args| | | | | | |] eqn:E; try exact H1.
+  - rewrite <- H1.
+    destruct (negb (op_eqb o OAnd || op_eqb o OOr)); [rewrite lkind_after_pass; reflexivity|].
+    destruct (FoldStmt.bool_lit l'), (FoldStmt.bool_lit r'); try reflexivity;
+      try (rewrite lkind_after_pass; reflexivity);
+      destruct (Bool.eqb (op_eqb o OAnd) b); reflexivity.
+Qed.
+
+(* ---------------------------------------------------------------- relink: the references of a
+   tree re-pointed to the final state of the definitions *)
+Definition SH2 (e e' : expr) : Prop :=
+  match e with
+  | EList p items => exists items', e' = EList p items' /\ map rtype items' = map rtype items
+  | ERef _ _ _ => is_ref e' = true /\ lkind e' = lkind e
+  | ECall _ n _ => exists p' args', e' = ECall p' n args'
+  | _ => True
+  end.
+
+Lemma fm_none_map : forall t l l', map rtype l' = map rtype l ->
+  first_mistyped t l = None -> first_mistyped t l' = None.
+Proof.
+  intros t l. induction l as [|x l IH]; intros [|x' l'] Hm H; try discriminate Hm; [reflexivity|].
+  cbn [map] in Hm. injection Hm as Hx Hl. cbn [first_mistyped] in *. rewrite Hx.
+  destruct (ty_eqb (rtype x) t); [exact (IH _ Hl H) | discriminate H].
+Qed.
+
+Lemma op_pres2 : forall p o l r l' r',
+  rtype l' = rtype l -> rtype r' = rtype r -> SH2 r r' ->
+  (forall p f, l' = EField p f -> l = l') -> (forall p f, r' = EField p f -> r = r') ->
+  op_check_t p o l r = Ok tt -> op_check_t p o l' r' = Ok tt.
+Proof.
+  intros p o l r l' r' Rl Rr Sr Fl Fr H.
+  destruct o; cbn [TypeSafetyWeakProofs.op_check_t CheckerProofs.op_check] in *; try exact H.
+  1-2,17-18: apply check_andor_spec in H; apply check_andor_spec; rewrite Rl, Rr; exact H.
+  1-4,9-12: (apply check_compares_spec in H; [|reflexivity]); (apply check_compares_spec; [reflexivity|]);
+       destruct H as [Hs [Ht Hc]]; rewrite Rl, Rr; split; [exact (same_field_pres _ _ _ _ Fl Fr Hs) | auto].
+  1-4: (apply check_math_spec in H; [|reflexivity]); (apply check_math_spec; [reflexivity|]);
+       rewrite Rl, Rr; split; [exact (proj1 H) | intros Hd; discriminate Hd].
+  - apply check_in_spec in H. apply check_in_spec. rewrite Rl. destruct H as [Hs Hr]. split; [exact Hs|].
+    destruct r; try contradiction; cbn [SH2] in Sr.
+    + destruct Sr as (p' & args' & ->). congruence.
+    + destruct Sr as [Hc _]. destruct r'; try discriminate Hc. congruence.
+    + destruct Sr as (items' & -> & Hm). exact (fm_none_map _ _ _ Hm Hr).
+  - unfold check_between in *. destruct r; try discriminate H. cbn [SH2] in Sr.
+    destruct Sr as (items' & -> & Hm). rewrite Rl.
+    destruct l0 as [|lo [|hi [|]]]; try discriminate H.
+    destruct items' as [|lo' [|hi' [|]]]; try discriminate Hm. cbn [map] in Hm. injection Hm as H1 H2.
+    rewrite H1, H2.
+    destruct (negb (is_strnum_ty (rtype l))); [discriminate H|].
+    destruct (ty_eqb (rtype lo) (rtype l) && ty_eqb (rtype hi) (rtype l)); [reflexivity | discriminate H].
+Qed.
+
+(* what relink keeps, component by component (a list literal is not a tree of the covered
+   language by itself, so the components are kept separately) *)
+Definition RL (e : expr) : Prop :=
+  defs_ok nk e = true ->
+  rtype (relink e) = rtype e /\ lkind (relink e) = lkind e /\ SH2 e (relink e) /\
+  (forall p f, relink e = EField p f -> e = relink e) /\
+  (wtt e = true -> wtt (relink e) = true) /\ (core2 e = true -> core2 (relink e) = true) /\
+  (params_static e = true -> params_static (relink e) = true) /\
+  (counts_ok e = true -> counts_ok (relink e) = true) /\
+  (in_kinds e = true -> in_kinds (relink e) = true) /\
+  defs_ok nk (relink e) = true.
+
+Lemma RL_list : forall items, Forall RL items -> forallb (defs_ok nk) items = true ->
+  map rtype (map relink items) = map rtype items /\
+  (forallb wtt items = true -> forallb wtt (map relink items) = true) /\
+  (forallb core2 items = true -> forallb core2 (map relink items) = true) /\
+  (forallb params_static items = true -> forallb params_static (map relink items) = true) /\
+  (forallb counts_ok items = true -> forallb counts_ok (map relink items) = true) /\
+  (forallb in_kinds items = true -> forallb in_kinds (map relink items) = true) /\
+  forallb (defs_ok nk) (map relink items) = true.
+Proof.
+  induction 1 as [|x l Hx _ IH]; intros Hd; cbn [map forallb] in *.
+  - repeat split; auto.
+  - apply andb_true_iff in Hd. destruct Hd as [Hd1 Hd2].
+    destruct (Hx Hd1) as (R & _ & _ & _ & W & C & P & Cn & K & D).
+    destruct (IH Hd2) as (R2 & W2 & C2 & P2 & Cn2 & K2 & D2).
+    split; [rewrite R, R2; reflexivity|].
+    repeat split; try (intros H; apply andb_true_iff in H; destruct H as [Ha Hb]; apply andb_true_iff; split; auto).
+    rewrite D, D2. reflexivity.
+Qed.
+
+Lemma kinds_in : forall e, (in_kinds e = true -> in_kinds (relink e) = true) -> kinds e = true -> kinds (relink e) = true.
+Proof. intros e H. unfold TypeSafetyFoldProofs.kinds. destruct vk; auto. Qed.
+
+Lemma relink_RL : forall e, RL e.
+Proof.
+  intros e0.
+  enough (Hq : RL e0 /\ match e0 with EList _ items => Forall RL items | _ => True end) by apply Hq.
+  induction e0 using expr_ind2; (split; [|try exact I]).
+  - (* EBin *)
+    destruct IHe0_1 as [IHl _]. destruct IHe0_2 as [IHr IHrx].
+    intros Hd. apply defs_bin in Hd. destruct Hd as [Dl Dr].
+    destruct (IHl Dl) as (Rl & Ll & Sl & Fl & Wl & Cl & Pl & Cnl & Kl & Dl').
+    destruct (IHr Dr) as (Rr & Lr & Sr & Fr & Wr & Cr & Pr & Cnr & Kr & Dr').
+    cbn [FoldStmt.relink].
+    split; [cbn [rtype]; rewrite Rl; reflexivity|]. split; [reflexivity|]. split; [exact I|].
+    split; [intros q f E; discriminate E|].
+    split; [|split; [|split; [|split; [|split]]]].
+    + cbn [TypeSafetyWeakProofs.wtt]. intros H. apply andb_true_iff in H. destruct H as [H Hop].
+      apply andb_true_iff in H. destruct H as [H1 H2].
+      destruct (op_check_t p o e0_1 e0_2) as [u| | |] eqn:Eop; try discriminate Hop. destruct u.
+      rewrite (Wl H1), (Wr H2), (op_pres2 p o _ _ _ _ Rl Rr Sr Fl Fr Eop). reflexivity.
+    + cbn [core2]. intros H. apply andb_true_iff in H. destruct H as [Ho Hcl]. rewrite (Cl Hcl), andb_true_r.
+      destruct o; try discriminate Ho; try (apply Cr; exact Ho).
+      * (* in *) destruct e0_2; try discriminate Ho; cbn [SH2] in Sr.
+        -- destruct Sr as (p' & args' & E). rewrite E in *. exact (Cr Ho).
+        -- destruct Sr as [Hc _]. destruct (relink (ERef pos name e0_2)); try discriminate Hc. reflexivity.
+        -- cbn [FoldStmt.relink]. cbn [defs_ok] in Dr. exact (proj1 (proj2 (proj2 (RL_list _ IHrx Dr))) Ho).
+      * (* between *) destruct e0_2; try discriminate Ho.
+        cbn [FoldStmt.relink]. cbn [defs_ok] in Dr. exact (proj1 (proj2 (proj2 (RL_list _ IHrx Dr))) Ho).
+    + cbn [params_static]. intros H. apply andb_true_iff in H. destruct H as [H1 H2]. rewrite (Pl H1), (Pr H2). reflexivity.
+    + cbn [counts_ok]. intros H. apply andb_true_iff in H. destruct H as [H1 H2]. rewrite (Cnl H1), (Cnr H2). reflexivity.
+    + cbn [in_kinds]. intros H. apply andb_true_iff in H. destruct H as [H H2]. apply andb_true_iff in H. destruct H as [Ho H1].
+      rewrite (Kl H1), (Kr H2), !andb_true_r.
+      destruct o; try reflexivity.
+      destruct e0_2; try reflexivity; cbn [SH2] in Sr.
+      * destruct Sr as (p' & args' & E). rewrite E in *. cbn [lkind] in *. rewrite Rl. exact Ho.
+      * destruct Sr as [Hc _]. destruct (relink (ERef pos name e0_2)) eqn:E; try discriminate Hc.
+        rewrite Lr, Rl. exact Ho.
+    + cbn [defs_ok]. rewrite Dl', Dr'. reflexivity.
+  - (* EField *) intros _. cbn [FoldStmt.relink]. repeat split; auto.
+  - intros _. cbn [FoldStmt.relink]. repeat split; auto.
+  - (* ENot *)
+    destruct IHe0 as [IHr _]. intros Hd. cbn [defs_ok] in Hd.
+    destruct (IHr Hd) as (Rr & Lr & Sr & Fr & Wr & Cr & Pr & Cnr & Kr & Dr').
+    cbn [FoldStmt.relink]. repeat split; auto; try (intros q f E; discriminate E).
+    cbn [TypeSafetyWeakProofs.wtt]. intros H. apply andb_true_iff in H. destruct H as [H1 H2].
+    rewrite (Wr H1), Rr, H2. reflexivity.
+  - (* ECall *)
+    clear IHe0. intros Hd. cbn [defs_ok] in Hd.
+    assert (HS : Forall RL args) by (eapply Forall_impl; [|exact H]; intros x [Hx _]; exact Hx).
+    destruct (RL_list _ HS Hd) as (R & W & C & P & Cn & K & D).
+    cbn [FoldStmt.relink]. split; [reflexivity|]. split; [reflexivity|]. split; [cbn [SH2]; eauto|].
+    split; [intros q f E; discriminate E|].
+    split; [exact W|]. split; [|split; [|split; [|split; [exact K | exact D]]]].
+    + cbn [core2]. intros Hc. apply andb_true_iff in Hc. destruct Hc as [H1 H2]. rewrite H1, (C H2). reflexivity.
+    + cbn [params_static]. intros Hp. apply andb_true_iff in Hp. destruct Hp as [H1 H2]. rewrite (P H2), andb_true_r.
+      rewrite <- (map_map rtype sty_of), R, (map_map rtype sty_of). exact H1.
+    + cbn [counts_ok]. intros Hn. apply andb_true_iff in Hn. destruct Hn as [H1 H2].
+      rewrite (Cn H2), andb_true_r, map_length. exact H1.
+  - intros _. cbn [FoldStmt.relink]. repeat split; auto.
+  - (* ERef *)
+    destruct IHe0 as [IHd _]. intros Hd. cbn [defs_ok] in Hd. apply andb_true_iff in Hd. destruct Hd as [Kd Dd].
+    destruct (IHd Dd) as (Rd & Ld & Sd & Fd & Wd & Cd & Pd & Cnd & Kkd & Dd').
+    pose proof Kd as Kd0. apply nk_split in Kd0. destruct Kd0 as (A1 & A2 & A3 & A4 & A5).
+    assert (Kr : nk (relink e0) = true).
+    { apply nk_intro; auto. unfold TypeSafetyFoldProofs.kinds in *. destruct vk; auto. }
+    destruct (in_place_TG (relink e0)) as [_ HN]. destruct (HN Kr Dd') as (Ri & Ki & Di & _).
+    cbn [FoldStmt.relink]. split; [cbn [rtype]; congruence|].
+    split; [cbn [lkind]; rewrite lkind_in_place; exact Ld|].
+    split; [cbn [SH2 lkind]; split; [reflexivity | rewrite lkind_in_place; exact Ld]|].
+    split; [intros q f E; discriminate E|].
+    repeat (split; [reflexivity|]). cbn [defs_ok]. rewrite Ki, Di. reflexivity.
+  - intros _. cbn [FoldStmt.relink]. repeat split; auto.
+  - intros _. cbn [FoldStmt.relink]. repeat split; auto.
+  - intros _. cbn [FoldStmt.relink]. repeat split; auto.
+  - (* EList *)
+    assert (HS : Forall RL l) by (eapply Forall_impl; [|exact H]; intros x [Hx _]; exact Hx).
+    intros Hd. cbn [defs_ok] in Hd.
+    destruct (RL_list _ HS Hd) as (R & W & C & P & Cn & K & D).
+    cbn [FoldStmt.relink]. split; [reflexivity|]. split; [reflexivity|].
+    split; [cbn [SH2]; eauto|]. split; [intros q f E; discriminate E|].
+    split; [|split; [intros Hc; discriminate Hc | split; [exact P | split; [exact Cn | split; [exact K | exact D]]]]].
+    cbn [TypeSafetyWeakProofs.wtt]. intros Hw. apply andb_true_iff in Hw. destruct Hw as [H1 H2]. rewrite (W H1). cbn [andb].
+    destruct l as [|x rest]; [discriminate H2|]. cbn [map] in *. injection R as Rx Rrest. rewrite Rx.
+    destruct (first_mistyped (rtype x) rest) eqn:E; [discriminate H2|].
+    rewrite (fm_none_map _ _ _ Rrest E). reflexivity.
+  - eapply Forall_impl; [|exact H]. intros x [Hx _]. exact Hx.
+  - (* EAccess *)
+    destruct IHe0_1 as [IHl _]. intros Hd. cbn [defs_ok] in Hd.
+    destruct (IHl Hd) as (Rl & Ll & Sl & Fl & Wl & Cl & Pl & Cnl & Kl & Dl').
+    cbn [FoldStmt.relink]. repeat split; auto; try (intros q f E; discriminate E).
+Qed.
+
+(* relink keeps the node conditions and the static type *)
+Lemma relink_N : forall e, nk e = true -> defs_ok nk e = true ->
+  rtype (relink e) = rtype e /\ nk (relink e) = true /\ defs_ok nk (relink e) = true.
+Proof.
+  intros e Hn Hd. destruct (relink_RL e Hd) as (R & _ & _ & _ & W & C & P & Cn & K & D).
+  apply nk_split in Hn. destruct Hn as (A1 & A2 & A3 & A4 & A5).
+  split; [exact R|]. split; [|exact D].
+  apply nk_intro; auto. unfold TypeSafetyFoldProofs.kinds in *. destruct vk; auto.
+Qed.
+
+(* the tree the plan executes *)
+Theorem exec_tree_N : forall e, nk e = true -> defs_ok nk e = true ->
+  rtype (exec_tree e) = rtype e /\ nk (exec_tree e) = true /\ defs_ok nk (exec_tree e) = true.
+Proof.
+  intros e Hn Hd. unfold FoldStmt.exec_tree.
+  destruct (fold_TG fo re_match fmt_v vk e) as [_ HN]. destruct (HN Hn Hd) as (R & K & D & _).
+  destruct (relink_N _ K D) as (R2 & K2 & D2). split; [congruence|]. split; assumption.
+Qed.
+
+(* ... and the object a GROUP BY item / a reference points to *)
+Theorem in_place_relink_N : forall e, nk e = true -> defs_ok nk e = true ->
+  rtype (in_place (relink e)) = rtype e /\ nk (in_place (relink e)) = true /\
+  defs_ok nk (in_place (relink e)) = true.
+Proof.
+  intros e Hn Hd. destruct (relink_N _ Hn Hd) as (R & K & D).
+  destruct (in_place_TG (relink e)) as [_ HN]. destruct (HN K D) as (R2 & K2 & D2 & _).
+  split; [congruence|]. split; assumption.
+Qed.
+
+End InPlace.
+
+(* ================================================================================================
    the folded tree is safe to evaluate
    ================================================================================================ *)
 Section FoldSafe.
@@ -586,6 +872,49 @@ Theorem fold_safe_vec : forall e,
   rtype (fold e) = rtype e /\ node_oktv fo (fold e) = true /\ defs_ok (node_oktv fo) (fold e) = true /\
   forall ch, dyn_ok_vec fo re ch (fold e).
 Proof. intros e. apply TG_vec_safe. apply fold_TG. Qed.
+
+(* the tree the plan executes for a checked tree (Model/FoldStmt.v exec_tree: the folded tree
+   with every reference re-pointed to the state the folder left the field objects in), and the
+   object a reference / a GROUP BY item points to *)
+Notation exec_tree := (FoldStmt.exec_tree fo re fmt_v).
+Notation in_place := (FoldStmt.in_place fo re fmt_v).
+Notation relink := (FoldStmt.relink fo re fmt_v).
+
+Theorem exec_safe_row : forall e,
+  node_okt fo e = true -> defs_ok (node_okt fo) e = true ->
+  rtype (exec_tree e) = rtype e /\ node_okt fo (exec_tree e) = true /\ defs_ok (node_okt fo) (exec_tree e) = true /\
+  forall k v, dyn_ok2 fo re k v (exec_tree e).
+Proof.
+  intros e Hn Hd. rewrite <- nk_row in Hn. apply defs_nk_row in Hd.
+  destruct (exec_tree_N fo re fmt_v false e Hn Hd) as (R & K & D). rewrite nk_row in K. apply defs_nk_row in D.
+  repeat (split; [assumption|]). intros k v. exact (eval_safe2_weak fo re re_ok k v _ K D).
+Qed.
+
+Theorem exec_safe_vec : forall e,
+  node_oktv fo e = true -> defs_ok (node_oktv fo) e = true ->
+  rtype (exec_tree e) = rtype e /\ node_oktv fo (exec_tree e) = true /\ defs_ok (node_oktv fo) (exec_tree e) = true /\
+  forall ch, dyn_ok_vec fo re ch (exec_tree e).
+Proof.
+  intros e Hn Hd. destruct (exec_tree_N fo re fmt_v true e Hn Hd) as (R & K & D).
+  repeat (split; [assumption|]). intros ch. exact (eval_batch_safe_weak fo re re_ok _ ch K D).
+Qed.
+
+Theorem in_place_safe_row : forall e,
+  node_okt fo e = true -> defs_ok (node_okt fo) e = true ->
+  rtype (in_place (relink e)) = rtype e /\ forall k v, dyn_ok2 fo re k v (in_place (relink e)).
+Proof.
+  intros e Hn Hd. rewrite <- nk_row in Hn. apply defs_nk_row in Hd.
+  destruct (in_place_relink_N fo re fmt_v false e Hn Hd) as (R & K & D). rewrite nk_row in K. apply defs_nk_row in D.
+  split; [assumption|]. intros k v. exact (eval_safe2_weak fo re re_ok k v _ K D).
+Qed.
+
+Theorem in_place_safe_vec : forall e,
+  node_oktv fo e = true -> defs_ok (node_oktv fo) e = true ->
+  rtype (in_place (relink e)) = rtype e /\ forall ch, dyn_ok_vec fo re ch (in_place (relink e)).
+Proof.
+  intros e Hn Hd. destruct (in_place_relink_N fo re fmt_v true e Hn Hd) as (R & K & D).
+  split; [assumption|]. intros ch. exact (eval_batch_safe_weak fo re re_ok _ ch K D).
+Qed.
 
 (* composition with Check and the call validation: the premises of
    no_dynamic_type_error_functions_partial / _batch_partial, the conclusion for the FOLDED tree *)
